@@ -103,7 +103,30 @@ def alphabet(tier):
     for d, s in mism:
         for ef in (False, True):
             V.append(['V', d, s, ef])
+    # documents checked against the definition schemas as well (the two helpers share schema files, not only cache shapes)
+    for i, s in enumerate(defs):
+        for d in (samples[i % len(samples)], 'athlete.json'):
+            for ef in (False, True):
+                V.append(['V', 'sample-jsons/' + d, s, ef])
+    # other spellings of the same files: the bare name the lookup falls back on, back-slashes, an absolute path
+    for s in schemas + defs:
+        for sp in (s[len('json/'):], s.replace('/', '\\'), os.path.join(core.REPO, s)):
+            for v in vals[:2]:
+                for ef in (False, True):
+                    S.append(['S', sp, v, ef])
+    for (d, sch), _valid in sorted(expect.items()):
+        for ef in (False, True):
+            V.append(['V', d, sch[len('json/'):], ef])
+            V.append(['V', os.path.join(core.REPO, d), sch, ef])
     return S, V, expect
+
+
+def canon(path):
+    """the schema file a spelled path names"""
+    p = path.replace('\\', '/')
+    if p.startswith(core.REPO + '/'):
+        p = p[len(core.REPO) + 1:]
+    return p[len('json/'):] if p.startswith('json/') else p
 
 
 def key_of(c):
@@ -231,6 +254,22 @@ def sequences(tier, seed, S, V):
                 for ca in bykey[a]:
                     for cb in bykey[b]:
                         seqs.append([ca, cb, ca])
+    # the two helpers on the same schema file, in both orders (one helper's memo must not answer for the other)
+    for sch in sorted(set(canon(c[1]) for c in S)):
+        Ss = [c for c in S if canon(c[1]) == sch]
+        Vs = [c for c in V if canon(c[2]) == sch]
+        pairs = [(a, b) for a in Ss for b in Vs]
+        if tier == 'quick' and len(pairs) > 120:
+            pairs = rnd.sample(pairs, 120)
+        for a, b in pairs:
+            seqs.append([a, b])
+            seqs.append([b, a])
+            seqs.append([a, b, a])
+    # runs of bare-named files (each one goes through the lookup's fall-back branch)
+    bare = [c for c in S + V if not (c[1].startswith('json/') or c[1].startswith('sample-jsons/') or c[1].startswith('/')) or
+            (c[0] == 'V' and not c[2].startswith('json/'))]
+    for _ in range(20 if tier == 'quick' else 300):
+        seqs.append([list(c) for c in rnd.sample(bare, min(len(bare), rnd.randrange(3, 12)))])
     allc = S + V
     for _ in range(100 if tier == 'quick' else 2500):
         L = rnd.randrange(25, 81)
